@@ -123,6 +123,9 @@ def validate(ctx, pid, traces, results, kinds_for_property=None, module="Request
             fail(line, k)
     if v["matched"] is not None and v["matched"] < len(evs):
         fail(v["matched"] + 1, "trace-rejected:" + evs[v["matched"]]["ev"])
+    lost = sum(1 for e in evs if e["ev"] == "cdone" and e.get("rid", 1) == 0)
+    if nruns and lost * 20 > nruns:
+        raise vlib.Inconclusive("%d of %d runs never reached the proxy (no stream was created): driver/listener set-up problem" % (lost, nruns))
     if held and reached * 2 < held:
         raise vlib.Inconclusive("more than half of the guided schedules never reached their gate (%d/%d)" % (reached, held))
     return evs
